@@ -435,7 +435,7 @@ func vfProg(tok string) []vfOp {
 		case "e", "S":
 			op.slot, _ = strconv.Atoi(p[1])
 			op.d = p[2]
-		case "a":
+		case "a", "A":
 			op.tuple = vfTuple(p[1])
 			op.d = p[2]
 		}
@@ -467,8 +467,8 @@ func vfExec(m *vfMetric, prog []vfOp, slots []vfHandle) (res []vfRes, outSlots [
 					slots[op.slot].emit(op.code == "S", op.d)
 				}
 				res = append(res, vfRes{code: "e"})
-			case "a":
-				m.emitT(false, op.d, op.tuple)
+			case "a", "A":
+				m.emitT(op.code == "A", op.d, op.tuple)
 				res = append(res, vfRes{code: "e"})
 			case "u":
 				if m.unreg(op.tuple) {
@@ -486,7 +486,7 @@ func vfWeight(kind string, progs [][]vfOp) uint64 {
 	var tot uint64
 	for _, p := range progs {
 		for _, op := range p {
-			if op.code == "e" || op.code == "a" || op.code == "S" {
+			if op.code == "e" || op.code == "a" || op.code == "S" || op.code == "A" {
 				if kind == "c" {
 					v, _ := strconv.ParseUint(op.d, 10, 64)
 					tot += v
